@@ -24,16 +24,17 @@ Faults  == {"none", "badOption", "badFormat", "missingPath", "missingPathAfterEx
 Formats == {"text", "json", "sarif"}
 Inputs  == {"zero", "file", "dir", "hostile"}      \* what the targets contain
 
-VARIABLES phase, fault, input, fmt, nviol, rendered, exit
-vars == <<phase, fault, input, fmt, nviol, rendered, exit>>
+\* verbose: the global `--verbose` flag (more logging on stderr; the outcome of the run is the same)
+VARIABLES phase, fault, input, fmt, verbose, nviol, rendered, exit
+vars == <<phase, fault, input, fmt, verbose, nviol, rendered, exit>>
 
 Count(i) == CASE i = "zero" -> 0 [] i = "file" -> 1 [] i = "dir" -> 2 [] i = "hostile" -> 2
 
-Init == /\ phase = "parse" /\ fault \in Faults /\ input \in Inputs /\ fmt \in Formats
+Init == /\ phase = "parse" /\ fault \in Faults /\ input \in Inputs /\ fmt \in Formats /\ verbose \in BOOLEAN
         /\ nviol = 0 /\ rendered = FALSE /\ exit = -1
 
-Abort == phase' = "exited" /\ exit' = 2 /\ UNCHANGED <<fault, input, fmt, nviol, rendered>>
-Step(p) == phase' = p /\ UNCHANGED <<fault, input, fmt, nviol, rendered, exit>>
+Abort == phase' = "exited" /\ exit' = 2 /\ UNCHANGED <<fault, input, fmt, verbose, nviol, rendered>>
+Step(p) == phase' = p /\ UNCHANGED <<fault, input, fmt, verbose, nviol, rendered, exit>>
 
 ParseArgs     == phase = "parse" /\ IF fault \in {"badOption", "badFormat"} THEN Abort ELSE Step("paths")
 ValidatePaths == phase = "paths" /\ IF fault \in {"missingPath", "missingPathAfterExisting"} THEN Abort
@@ -42,11 +43,11 @@ ConfigFaults  == {"missingConfig", "malformedYaml", "malformedJson", "malformedP
                   "listYaml", "scalarYaml", "arrayJson"}
 LoadConfig    == phase = "config" /\ IF fault \in ConfigFaults THEN Abort ELSE Step("lint")
 Lint   == phase = "lint" /\ nviol' = Count(input) /\ phase' = "render"
-          /\ UNCHANGED <<fault, input, fmt, rendered, exit>>
+          /\ UNCHANGED <<fault, input, fmt, verbose, rendered, exit>>
 Render == phase = "render" /\ rendered' = TRUE /\ phase' = "exit"
-          /\ UNCHANGED <<fault, input, fmt, nviol, exit>>
+          /\ UNCHANGED <<fault, input, fmt, verbose, nviol, exit>>
 Exit   == phase = "exit" /\ exit' = (IF nviol > 0 THEN 1 ELSE 0) /\ phase' = "exited"
-          /\ UNCHANGED <<fault, input, fmt, nviol, rendered>>
+          /\ UNCHANGED <<fault, input, fmt, verbose, nviol, rendered>>
 
 Next == ParseArgs \/ ValidatePaths \/ LoadConfig \/ Lint \/ Render \/ Exit
 Spec == Init /\ [][Next]_vars /\ WF_vars(Next)
@@ -59,7 +60,7 @@ Terminates == <>(phase = "exited")
 TypeOK == exit \in {-1, 0, 1, 2}
 
 Emit == phase = "exited" => PrintT(<<"CASE", ToJson([fault |-> fault, input |-> input, fmt |-> fmt,
-                                                      exit |-> exit])>>)
+                                                      verbose |-> verbose, exit |-> exit])>>)
 
 \* ---- judgement of one observed run triple (used by RunTrace) ---------------------------------
 ToSet(s) == {s[i] : i \in 1..Len(s)}
